@@ -655,25 +655,26 @@ crash_cases(const struct cfg *c, int op, size_t off, size_t len)
 
 /* ---- single I/O faults ------------------------------------------------------------------------------ */
 
-/* The medium a failed store / store_part / reset left behind, seen by a fresh
- * instance after the next start.  Returns the outcome class when validation
- * succeeded (NULL otherwise: nothing is demanded then). */
+/* What validation says about the medium a failed store / store_part / reset left
+ * behind -- asked of `who`: first the very instance that ran the failed
+ * operation ("a later validation" of the statement is not restricted to an
+ * instance that was set up anew: an instance that remembers an earlier verdict,
+ * or anything else about the image, across its own failed operation must not
+ * hand that out), then a fresh instance after the next start.  Returns the
+ * outcome class when validation succeeded (NULL otherwise: nothing is demanded
+ * then, the statement is an implication). */
 static const char *
-after_fault(struct world *w, const struct cfg *c, int op, bool whole)
+judge_after_fault(struct world *w, const struct cfg *c, int op, bool whole, const char *who, bool *mixed)
 {
     const size_t cs = cks_size(c->ck);
-    const char *outcome = NULL;
-    mc_log_hex("  region at the fault", M.snap, M.size);
-    mc_log_hex("  region after the failed operation", M.img, M.size);
-    inst_free(&w->in);
-    inst_make(&w->in, c);
+    *mixed = false;
     PersistentAccess v = PERSISTENT_ACCESS_IO_ERROR;
     if (run_op(&w->in, OP_VALIDATE, NULL, 0, 0, PLAN_NONE, 0, 0, &v) != 0 || v != PERSISTENT_ACCESS_SUCCESS)
         return NULL;
     if ((region_interps(M.img, cs, c->N, c->ck, NULL) & w->orders) == 0) {
         FAIL("C11/valid-implies-checksum-matches",
-             "validate succeeded after the failed %s although the checksum octets do not encode "
-             "%s(data image on the medium)", OPNAME[op], CKNAME[c->ck]);
+             "validate (%s) succeeded after the failed %s although the checksum octets do not encode "
+             "%s(data image on the medium)", who, OPNAME[op], CKNAME[c->ck]);
         return NULL;
     }
     if (op == OP_RESET)
@@ -689,13 +690,34 @@ after_fault(struct world *w, const struct cfg *c, int op, bool whole)
     free(dst);
     if (is_new || is_old)
         return is_new ? "fault-then-valid-new" : "fault-then-valid-old";
-    outcome = "fault-then-valid-mixed-consistent";
-    if (whole) {
+    if (whole)
         FAIL("C11/whole-write-old-or-new",
-             "no medium write of the failed %s was torn, validate succeeded, but fetch (%s, rc=%d) "
-             "returned neither the previous nor the new image", OPNAME[op],
+             "no medium write of the failed %s was torn, validate (%s) succeeded, but fetch (%s, rc=%d) "
+             "returned neither the previous nor the new image", OPNAME[op], who,
              fhow ? "did not return" : "returned", (int)f);
-    } else if (M.snapped && memcmp(M.snap, M.img, M.size) != 0) {
+    *mixed = true;
+    return "fault-then-valid-mixed-consistent";
+}
+
+static const char *
+after_fault(struct world *w, const struct cfg *c, int op, bool whole)
+{
+    bool mixed = false;
+    mc_log_hex("  region at the fault", M.snap, M.size);
+    mc_log_hex("  region after the failed operation", M.img, M.size);
+    /* the instance that ran the failed operation */
+    mc_log("  same instance:");
+    (void)judge_after_fault(w, c, op, whole, "same instance", &mixed);
+    if (failed_here)
+        return NULL;
+    /* after the next start: a fresh instance over the same medium */
+    mc_log("  fresh instance:");
+    inst_free(&w->in);
+    inst_make(&w->in, c);
+    const char *outcome = judge_after_fault(w, c, op, whole, "fresh instance", &mixed);
+    if (!outcome || failed_here)
+        return failed_here ? NULL : outcome;
+    if (mixed && !whole && M.snapped && memcmp(M.snap, M.img, M.size) != 0) {
         /* torn write, and the library changed the medium after it: did the torn
          * state validate by itself?  (observation only) */
         unsigned char *now = mc_exact_copy(M.img, M.size);
@@ -827,6 +849,509 @@ fault_cases(const struct cfg *c, int op, size_t off, size_t len)
             }
 }
 
+/* ---- same-instance operation sequences ------------------------------------------------------------------ */
+
+/*
+ * Family S: ONE PersistentStorage instance goes through a sequence of
+ * operations in which validations and fetches precede and follow stores,
+ * failing stores, resets and re-configurations.  The medium has two banks (two
+ * disjoint blocks of 4+N octets at placements A and B); the region in force is
+ * the checksum-plus-data region of the configuration the documented meaning of
+ * the calls made so far adds up to (placement = last persistent_place, checksum
+ * = last persistent_sum16/32 since the last persistent_init).
+ *
+ *   sequence = pre ; X ; post
+ *   pre  = every sequence of length <= 2 over the fault-free operations
+ *          V validate, F fetch, S store(next image), P store_part(next image),
+ *          R reset, M place(other bank), k sum16(CRC-16/ARC), K sum32,
+ *          I init+place(bank in force)+buffer (back to the default sum)
+ *   X    = one of: nothing; M onto bank B, bank B holding each of {a complete
+ *          store, the remains of a store cut off in write w after t octets} made
+ *          by another instance under the same or another checksum ("previous
+ *          life of the device"); k; K; I; or store / store_part / reset /
+ *          validate / fetch with ONE injected fault: medium call i transfers
+ *          s < len octets or answers (size_t)-1   (every i, every s)
+ *   post = validate,fetch  or  fetch,validate   on the same instance
+ *
+ * O (sentences of the statement; every validation meant is one that itself ran
+ * fault-free):
+ *   - an operation in which a fault was injected returns the I/O-error code;
+ *   - a validation that comes after a cut-off or failing store / store_part /
+ *     reset touched the bank in force succeeds only if the checksum octets of
+ *     the region in force encode the configured algorithm over its data octets
+ *     (interpretations: those a fault-free store of a fresh instance under that
+ *     checksum used);
+ *   - if the last thing that changed the bank in force was a cut-off or failing
+ *     store / store_part all of whose medium writes were whole, and the checksum
+ *     in force is that store's, a successful validation followed by a fetch:
+ *     the fetch succeeds and returns exactly the previous or exactly the new
+ *     image.
+ * Nothing is demanded of fault-free operations otherwise (round-trips are C10's
+ * subject; an instance that refuses to go on after its own failed operation is
+ * admissible).
+ */
+
+enum { S_V, S_F, S_S, S_P, S_R, S_M, S_K16, S_K32, S_I, S_NOPS };
+static const char SOPNAME[S_NOPS + 1] = "VFSPRMkKI";
+
+enum { XK_NONE, XK_M, XK_K16, XK_K32, XK_I, XK_FAULT };
+
+struct xop {
+    int kind;
+    /* XK_M: what bank B holds */
+    int b_other; /* 0: written under the checksum the instance starts with, 1: under the next kind */
+    int b_cut;   /* 0: complete store, 1: a second store cut off in write b_w after b_t octets */
+    long b_w;
+    size_t b_t;
+    /* XK_FAULT */
+    int op; /* S_S, S_P, S_R, S_V, S_F */
+    long i;
+    size_t s;
+    int over;
+};
+
+struct scfg {
+    size_t N;
+    uint32_t place[2];
+    int ck0;
+    int buf;
+};
+
+static struct {
+    unsigned char *blk[2];
+    size_t bsize;
+} BANKS;
+
+struct sworld {
+    const struct scfg *c;
+    struct inst in;
+    int bank, ck;         /* configuration in force */
+    int orders[CK_KINDS]; /* interpretations of a fault-free store per checksum kind */
+    int nimg;
+    bool dev[2];          /* the bank holds remains of a cut-off / failing store, store_part or reset */
+    struct {
+        bool on;          /* last change of the bank: cut-off/failing store with whole writes only */
+        int ck;
+        unsigned char prev[NMAX], next[NMAX];
+    } on[2];
+    bool last_v_ok;       /* the previous operation was a fault-free validation that succeeded */
+    bool stop, precond;
+    int last_v, last_f;   /* result of the last fault-free validate / fetch (-1: none) */
+};
+
+static void
+region_select(const struct scfg *c, int bank, int ck)
+{
+    M.img = BANKS.blk[bank];
+    M.lo = c->place[bank];
+    M.size = cks_size(ck) + c->N;
+}
+
+static void
+seq_image(unsigned char *d, size_t N, int k)
+{
+    for (size_t i = 0; i < N; ++i)
+        d[i] = (unsigned char)(0x21 + 0x1d * i + 0x47 * (unsigned)k + 0x10 * (unsigned)(k * k));
+}
+
+/* the part of family S: the middle of the data, the whole of it for N = 1 */
+static void
+seq_part(size_t N, size_t *off, size_t *len)
+{
+    *off = N >= 2 ? 1 : 0;
+    *len = N >= 3 ? N - 2 : 1;
+}
+
+/* which of checksum and data comes first under the interpretations `orders`:
+ * 0 checksum first, 1 data first, -1 not determined */
+static int
+layout_of(int orders)
+{
+    const bool cf = (orders & 0x3) != 0, df = (orders & 0xc) != 0;
+    return cf == df ? -1 : df ? 1 : 0;
+}
+
+/* a separate instance ("previous life of the device") stores `image` into
+ * (bank, ck) fault-free, or under a power cut (w,t) */
+static bool
+writer_store(const struct scfg *c, int bank, int ck, const unsigned char *image, int plan, long w, size_t t,
+             int *interps)
+{
+    const struct cfg wc = { c->N, c->place[bank], ck, -1 };
+    struct inst wr;
+    region_select(c, bank, ck);
+    inst_make(&wr, &wc);
+    unsigned char *src = mc_exact_copy(image, c->N);
+    PersistentAccess rc = PERSISTENT_ACCESS_SUCCESS;
+    const int how = run_op(&wr, OP_STORE, src, 0, 0, plan, w, t, &rc);
+    free(src);
+    inst_free(&wr);
+    if (M.outside || how == 2)
+        return false;
+    if (plan == PLAN_CUT)
+        return true; /* cut (how == 1) or cut point beyond the execution (a complete store) */
+    if (how != 0 || rc != PERSISTENT_ACCESS_SUCCESS)
+        return false;
+    if (interps) {
+        *interps = region_interps(M.img, cks_size(ck), c->N, ck, image);
+        return *interps != 0;
+    }
+    return true;
+}
+
+/* one operation of the sequence on the instance under test; plan == PLAN_FAULT
+ * injects (at, s, over) */
+static void
+seq_op(struct sworld *w, int sop, int plan, long at, size_t s, int over)
+{
+    const struct scfg *c = w->c;
+    const size_t N = c->N;
+    const bool was_v_ok = w->last_v_ok;
+    w->last_v_ok = false;
+    mc_log(" op %c%s (bank %c, %s)", SOPNAME[sop], plan == PLAN_FAULT ? "!" : "", "AB"[w->bank], CKNAME[w->ck]);
+    /* re-configurations */
+    switch (sop) {
+    case S_M:
+        w->bank ^= 1;
+        persistent_place(&w->in.s, c->place[w->bank]);
+        region_select(c, w->bank, w->ck);
+        return;
+    case S_K16:
+        w->ck = CK_CRC16;
+        persistent_sum16(&w->in.s, cb_crc16, 0u);
+        region_select(c, w->bank, w->ck);
+        return;
+    case S_K32:
+        w->ck = CK_SUM32;
+        persistent_sum32(&w->in.s, cb_sum32, SUM32_INIT);
+        region_select(c, w->bank, w->ck);
+        return;
+    case S_I:
+        w->ck = CK_DEFAULT;
+        persistent_init(&w->in.s, N, med_read, med_write);
+        persistent_place(&w->in.s, c->place[w->bank]);
+        if (c->buf >= 0)
+            persistent_buffer(&w->in.s, w->in.aux, (size_t)c->buf);
+        region_select(c, w->bank, w->ck);
+        return;
+    default: break;
+    }
+    const size_t cs = cks_size(w->ck);
+    const int lay = layout_of(w->orders[w->ck]);
+    unsigned char image[NMAX], prev[NMAX], next[NMAX];
+    size_t off = 0, len = N;
+    unsigned char *buf = NULL;
+    int libop = OP_VALIDATE;
+    memset(prev, 0, sizeof prev);
+    memset(next, 0, sizeof next);
+    if (lay >= 0)
+        memcpy(prev, M.img + (lay ? 0 : cs), N);
+    switch (sop) {
+    case S_S:
+    case S_P:
+        seq_image(image, N, w->nimg++);
+        if (sop == S_P)
+            seq_part(N, &off, &len);
+        memcpy(next, prev, N);
+        memcpy(next + off, image + off, len);
+        buf = mc_exact_copy(image + off, len);
+        libop = sop == S_S ? OP_STORE : OP_STORE_PART;
+        break;
+    case S_F:
+        buf = mc_exact(N);
+        memset(buf, 0xee, N);
+        libop = OP_FETCH;
+        break;
+    case S_R: libop = OP_RESET; break;
+    default: break;
+    }
+    PersistentAccess rc = PERSISTENT_ACCESS_SUCCESS;
+    next_over = over;
+    const int how = run_op(&w->in, libop, buf, off, len, plan, at, s, &rc);
+    const bool fired = (plan == PLAN_FAULT) && M.fired;
+    const bool mutator = (sop == S_S || sop == S_P || sop == S_R);
+    if (sop == S_F && how == 0)
+        mc_log_hex("  fetched", buf, N);
+    if (M.outside) {
+        precondition_failed("access outside the region in force");
+        w->stop = w->precond = true;
+    } else if (how == 2 && !fired) {
+        precondition_failed("operation does not return on a fault-free medium");
+        w->stop = w->precond = true;
+    } else if (how == 2) {
+        FAIL("C11/hang", "%s did not return within %ld medium calls after a medium %s of %zu octets %s (%zu): "
+             "the fault is never reported", OPNAME[libop], M.budget, M.fired_rw == 'r' ? "read" : "write",
+             M.fired_len, over ? "answered (size_t)-1 with nothing transferred" : "transferred short", s);
+        w->stop = true;
+    } else if (fired) {
+        if (rc == PERSISTENT_ACCESS_SUCCESS)
+            FAIL("C11/io-fault-never-success", "%s returned success although its medium %s of %zu octets %s (%zu)",
+                 OPNAME[libop], M.fired_rw == 'r' ? "read" : "write", M.fired_len,
+                 over ? "answered (size_t)-1 with nothing transferred" : "transferred short", s);
+        else if (rc != PERSISTENT_ACCESS_IO_ERROR)
+            FAIL("C11/io-fault-reported-as-io-error",
+                 "%s returned %d, not the I/O error code, after a medium %s of %zu octets %s (%zu)", OPNAME[libop],
+                 (int)rc, M.fired_rw == 'r' ? "read" : "write", M.fired_len,
+                 over ? "answered (size_t)-1 with nothing transferred" : "transferred short", s);
+        if (mutator) {
+            w->dev[w->bank] = true;
+            w->on[w->bank].on = false;
+            if (sop != S_R && lay >= 0 && (M.fired_rw == 'r' || s == 0 || over)) {
+                w->on[w->bank].on = true;
+                w->on[w->bank].ck = w->ck;
+                memcpy(w->on[w->bank].prev, prev, N);
+                memcpy(w->on[w->bank].next, next, N);
+            }
+        }
+        if (failed_here)
+            w->stop = true;
+    } else {
+        /* ran fault-free (a planned fault the execution never reached included) */
+        if (M.calls > (long)(N + 4 + 2) || M.maxlen > (N > 4 ? N : 4))
+            mc_cap("family S: %s made %ld medium calls / a call of %zu octets, fault positions are enumerated "
+                   "for %zu calls of up to %zu octets", OPNAME[libop], M.calls, M.maxlen, N + 4 + 2, N > 4 ? N : 4);
+        if (mutator)
+            w->on[w->bank].on = false; /* whatever this made of the bank is C10's subject */
+        if (sop == S_V) {
+            w->last_v = (int)rc;
+            if (rc == PERSISTENT_ACCESS_SUCCESS) {
+                w->last_v_ok = true;
+                if (w->dev[w->bank]
+                    && (region_interps(M.img, cs, N, w->ck, NULL) & w->orders[w->ck]) == 0) {
+                    mc_log_hex("  region in force", M.img, M.size);
+                    FAIL("C11/valid-implies-checksum-matches",
+                         "validate (same instance, later in its history) succeeded over bank %c, which holds the "
+                         "remains of a cut-off or failing operation, although the checksum octets do not encode "
+                         "%s(data image on the medium)", "AB"[w->bank], CKNAME[w->ck]);
+                    w->stop = true;
+                }
+            }
+        } else if (sop == S_F) {
+            w->last_f = (int)rc;
+            if (was_v_ok && w->on[w->bank].on && w->on[w->bank].ck == w->ck) {
+                const bool got = rc == PERSISTENT_ACCESS_SUCCESS;
+                if (!(got && (memcmp(buf, w->on[w->bank].prev, N) == 0 || memcmp(buf, w->on[w->bank].next, N) == 0))) {
+                    FAIL("C11/whole-write-old-or-new",
+                         "no medium write of the cut-off or failing store into bank %c was torn, validate (same "
+                         "instance) succeeded, but fetch (rc=%d) returned neither the previous nor the new image",
+                         "AB"[w->bank], (int)rc);
+                    w->stop = true;
+                }
+            }
+        }
+    }
+    free(buf);
+}
+
+static void
+seq_desc(char *b, size_t n, const unsigned char *pre, int npre, const struct xop *x, int post)
+{
+    char ps[8], xs[120];
+    int k = 0;
+    for (int i = 0; i < npre; ++i)
+        ps[k++] = SOPNAME[pre[i]];
+    if (k == 0)
+        ps[k++] = '-';
+    ps[k] = 0;
+    switch (x->kind) {
+    case XK_NONE: snprintf(xs, sizeof xs, "-"); break;
+    case XK_K16: snprintf(xs, sizeof xs, "k"); break;
+    case XK_K32: snprintf(xs, sizeof xs, "K"); break;
+    case XK_I: snprintf(xs, sizeof xs, "I"); break;
+    case XK_M:
+        if (x->b_cut)
+            snprintf(xs, sizeof xs, "M(bank B: %s checksum, store cut in write %ld after %zu octets)",
+                     x->b_other ? "next" : "same", x->b_w, x->b_t);
+        else
+            snprintf(xs, sizeof xs, "M(bank B: %s checksum, complete store)", x->b_other ? "next" : "same");
+        break;
+    default:
+        snprintf(xs, sizeof xs, "%c!(fault-in-call=%ld transfers=%zu%s%s)", SOPNAME[x->op], x->i, x->s,
+                 x->over ? " answers=" : "", OVER_NAME[x->over]);
+        break;
+    }
+    snprintf(b, n, "pre=%s X=%s post=%s", ps, xs, post ? "FV" : "VF");
+}
+
+static void
+seq_case(const struct scfg *c, const unsigned char *pre, int npre, const struct xop *x, int post)
+{
+    char sd[200];
+    seq_desc(sd, sizeof sd, pre, npre, x, post);
+    if (!mc_case("S N=%zu A=%lu B=%lu ck=%s buf=%d %s", c->N, (unsigned long)c->place[0],
+                 (unsigned long)c->place[1], CKNAME[c->ck0], c->buf, sd))
+        return;
+    struct sworld w;
+    memset(&w, 0, sizeof w);
+    w.c = c;
+    w.last_v = w.last_f = -1;
+    failed_here = false;
+    BANKS.bsize = 4 + c->N;
+    for (int b = 0; b < 2; ++b) {
+        BANKS.blk[b] = mc_exact(BANKS.bsize);
+        memset(BANKS.blk[b], 0xcd, BANKS.bsize);
+    }
+    M.snap = mc_exact(BANKS.bsize);
+    memset(M.snap, 0, BANKS.bsize);
+    unsigned char PA[NMAX], PB[NMAX], QB[NMAX];
+    seq_image(PA, c->N, 20);
+    seq_image(PB, c->N, 21);
+    seq_image(QB, c->N, 22);
+    bool ready = true;
+    /* how a fault-free store lays out and encodes each checksum kind */
+    for (int ck = 0; ready && ck < CK_KINDS; ++ck) {
+        memset(BANKS.blk[0], 0xcd, BANKS.bsize);
+        ready = writer_store(c, 0, ck, PA, PLAN_NONE, 0, 0, &w.orders[ck]);
+    }
+    /* bank B: a complete store, or the remains of a cut-off one (default when X is
+     * not M: the data write torn in the middle, same checksum) */
+    int b_ck = c->ck0, b_cut = 1;
+    long b_w = 0;
+    size_t b_t = (c->N + 1) / 2;
+    if (x->kind == XK_M) {
+        b_ck = x->b_other ? (c->ck0 + 1) % CK_KINDS : c->ck0;
+        b_cut = x->b_cut;
+        b_w = x->b_w;
+        b_t = x->b_t;
+    }
+    bool cut_fired = false;
+    if (ready)
+        ready = writer_store(c, 1, b_ck, PB, PLAN_NONE, 0, 0, NULL);
+    if (ready && b_cut) {
+        ready = writer_store(c, 1, b_ck, QB, PLAN_CUT, b_w, b_t, NULL);
+        cut_fired = ready && M.escaped == 1;
+        if (cut_fired) {
+            w.dev[1] = true;
+            if (b_t == 0 || b_t == M.fired_len) {
+                w.on[1].on = true;
+                w.on[1].ck = b_ck;
+                memcpy(w.on[1].prev, PB, c->N);
+                memcpy(w.on[1].next, QB, c->N);
+            }
+        }
+    }
+    mc_log_hex(" bank B", BANKS.blk[1], BANKS.bsize);
+    /* bank A: a complete store under the checksum the instance starts with */
+    if (ready) {
+        memset(BANKS.blk[0], 0xcd, BANKS.bsize);
+        ready = writer_store(c, 0, c->ck0, PA, PLAN_NONE, 0, 0, NULL);
+    }
+    const char *outcome = "precondition-failed";
+    bool nontrivial = false;
+    if (!ready) {
+        precondition_failed("fault-free store by the preparing instance");
+    } else {
+        const struct cfg ic = { c->N, c->place[0], c->ck0, c->buf };
+        w.bank = 0;
+        w.ck = c->ck0;
+        region_select(c, 0, c->ck0);
+        inst_make(&w.in, &ic);
+        for (int i = 0; i < npre && !w.stop; ++i)
+            seq_op(&w, pre[i], PLAN_NONE, 0, 0, 0);
+        bool deviated = false;
+        if (!w.stop)
+            switch (x->kind) {
+            case XK_NONE: env_class("env-seq-no-deviation"); break;
+            case XK_M:
+                seq_op(&w, S_M, PLAN_NONE, 0, 0, 0);
+                deviated = true;
+                env_class(cut_fired ? "env-seq-replace-onto-cut-off-store" : "env-seq-replace-onto-complete-store");
+                break;
+            case XK_K16:
+            case XK_K32:
+                seq_op(&w, x->kind == XK_K16 ? S_K16 : S_K32, PLAN_NONE, 0, 0, 0);
+                deviated = true;
+                env_class("env-seq-resum");
+                break;
+            case XK_I:
+                seq_op(&w, S_I, PLAN_NONE, 0, 0, 0);
+                deviated = true;
+                env_class("env-seq-reinit");
+                break;
+            default:
+                seq_op(&w, x->op, PLAN_FAULT, x->i, x->s, x->over);
+                if (M.fired) {
+                    deviated = true;
+                    env_class(x->op == S_S   ? "env-seq-fault-in-store"
+                              : x->op == S_P ? "env-seq-fault-in-store-part"
+                              : x->op == S_R ? "env-seq-fault-in-reset"
+                              : x->op == S_V ? "env-seq-fault-in-validate"
+                                             : "env-seq-fault-in-fetch");
+                }
+                break;
+            }
+        if (!w.stop) {
+            mc_log_hex(" bank in force before the closing validate/fetch", M.img, M.size);
+            seq_op(&w, post ? S_F : S_V, PLAN_NONE, 0, 0, 0);
+        }
+        if (!w.stop)
+            seq_op(&w, post ? S_V : S_F, PLAN_NONE, 0, 0, 0);
+        inst_free(&w.in);
+        if (!w.precond) {
+            nontrivial = deviated && !w.stop;
+            outcome = !deviated                                  ? "seq-fault-not-reached"
+                      : w.last_v == PERSISTENT_ACCESS_SUCCESS      ? "seq-ends-valid"
+                      : w.last_v == PERSISTENT_ACCESS_INVALID_DATA ? "seq-ends-invalid"
+                                                                   : "seq-ends-other";
+            if (x->kind == XK_NONE)
+                outcome = "seq-plain";
+        }
+    }
+    for (int b = 0; b < 2; ++b) {
+        free(BANKS.blk[b]);
+        BANKS.blk[b] = NULL;
+    }
+    M.img = NULL;
+    free(M.snap);
+    M.snap = NULL;
+    mc_end(nontrivial && !failed_here, failed_here ? "failed" : outcome);
+}
+
+static void
+seq_cases(const struct scfg *c, int maxpre)
+{
+    const long icap = (long)c->N + 4 + 2;       /* >= medium calls of any operation, octet-wise, 32-bit checksum */
+    const size_t scap = c->N > 4 ? c->N : 4;    /* >= length of any call */
+    static const int FOPS[5] = { S_S, S_P, S_R, S_V, S_F };
+    int npow = 1;
+    for (int npre = 0; npre <= maxpre; ++npre, npow *= S_NOPS)
+        for (int code = 0; code < npow; ++code) {
+            unsigned char pre[4];
+            int xx = code;
+            for (int i = 0; i < npre; ++i, xx /= S_NOPS)
+                pre[i] = (unsigned char)(xx % S_NOPS);
+            for (int post = 0; post < 2; ++post) {
+                struct xop x;
+                memset(&x, 0, sizeof x);
+                x.kind = XK_NONE;
+                seq_case(c, pre, npre, &x, post);
+                for (x.kind = XK_K16; x.kind <= XK_I; ++x.kind)
+                    seq_case(c, pre, npre, &x, post);
+                x.kind = XK_M;
+                for (x.b_other = 0; x.b_other < 2; ++x.b_other) {
+                    x.b_cut = 0;
+                    x.b_w = 0;
+                    x.b_t = 0;
+                    seq_case(c, pre, npre, &x, post);
+                    x.b_cut = 1;
+                    for (x.b_w = 0; x.b_w < 2; ++x.b_w)
+                        for (x.b_t = 0; x.b_t <= scap; ++x.b_t)
+                            seq_case(c, pre, npre, &x, post);
+                }
+                memset(&x, 0, sizeof x);
+                x.kind = XK_FAULT;
+                for (int fo = 0; fo < 5; ++fo)
+                    for (x.i = 0; x.i < icap; ++x.i)
+                        for (size_t sc = 0; sc < scap + NOVER; ++sc) {
+                            x.op = FOPS[fo];
+                            x.over = sc < scap ? 0 : (int)(sc - scap) + 1;
+                            x.s = x.over ? 0 : sc;
+                            seq_case(c, pre, npre, &x, post);
+                        }
+            }
+        }
+}
+
 /* ---- anchors ------------------------------------------------------------------------------------------ */
 
 static void
@@ -915,16 +1440,61 @@ main(int argc, char **argv)
                         }
                 }
     }
-    char bound[800];
+    /* family S: operation sequences on one instance over a two-bank medium */
+    const size_t smax = mc_thorough() ? 6 : 4;
+    static const uint32_t SPLACES[] = { 100u, 0u, PLACE_TOP };
+    const int nsplaces = mc_thorough() ? 3 : 1;
+    for (size_t N = 1; N <= smax; ++N)
+        for (int pi = 0; pi < nsplaces; ++pi)
+            for (int ck0 = 0; ck0 < CK_KINDS; ++ck0) {
+                const int cand_q[] = { -1, 1, (int)N };
+                const int cand_t[] = { -1, 1, 2, (int)N, (int)N + 1 };
+                const int *cand = mc_thorough() ? cand_t : cand_q;
+                const int ncand = mc_thorough() ? 5 : 3;
+                int bufs[8], nb = 0;
+                for (int k = 0; k < ncand; ++k) {
+                    bool dup = false;
+                    for (int j = 0; j < nb; ++j)
+                        dup |= (bufs[j] == cand[k]);
+                    if (!dup)
+                        bufs[nb++] = cand[k];
+                }
+                for (int bi = 0; bi < nb; ++bi) {
+                    struct scfg sc;
+                    memset(&sc, 0, sizeof sc);
+                    sc.N = N;
+                    sc.ck0 = ck0;
+                    sc.buf = bufs[bi];
+                    const uint32_t blk = (uint32_t)(4 + N);
+                    if (SPLACES[pi] == PLACE_TOP) {
+                        sc.place[0] = (uint32_t)(0x100000000ull - blk); /* bank A ends exactly at 2^32 */
+                        sc.place[1] = sc.place[0] - blk - 3u;
+                    } else {
+                        sc.place[0] = SPLACES[pi];
+                        sc.place[1] = sc.place[0] + blk + 3u;
+                    }
+                    /* thorough: one operation more in front of X for the small sizes at placement 100 */
+                    seq_cases(&sc, (mc_thorough() && pi == 0 && N <= 4) ? 3 : 2);
+                }
+            }
+    char bound[1600];
     snprintf(bound, sizeof bound,
              "data sizes 1..%zu x placements %s x {default sum16, CRC-16/ARC, sum32} x auxiliary buffer %s: "
              "every store / store_part(offset,len>=0) x 3 image pairs x every write call x every t in 0..len; "
              "every operation (parts incl. length 0) x every medium call x every short count 0..len-1 and the "
              "failure answer (size_t)-1 (one fault per execution), stores x 3 image pairs with a "
-             "fresh validate/fetch of the medium the failed operation left",
+             "validate/fetch of the medium the failed operation left, by the same instance and by a fresh one; "
+             "S: data sizes 1..%zu x bank placements %s x 3 checksums x auxiliary buffer %s x every sequence "
+             "pre;X;post on one instance over a two-bank medium: pre = every sequence of <= 2%s fault-free operations "
+             "over {validate, fetch, store, store_part, reset, place(other bank), sum16, sum32, init}, X in {nothing, "
+             "sum16, sum32, init, place(bank B) x bank B holding {complete store, store cut off in write 0..1 after "
+             "0..max(N,4) octets} x {same, next checksum}, {store, store_part, reset, validate, fetch} x every medium "
+             "call 0..N+5 x every short count 0..max(N,4)-1 and (size_t)-1}, post in {validate;fetch, fetch;validate}",
              nmax, mc_thorough() ? "{0,1,7,100,straddling 2^16,straddling 2^31,ending at 2^32}"
                                  : "{0,100,ending at 2^32}",
-             mc_thorough() ? "{none,1,2,3,N-1,N,N+1}" : "{none,1,3,N}");
+             mc_thorough() ? "{none,1,2,3,N-1,N,N+1}" : "{none,1,3,N}",
+             smax, mc_thorough() ? "{100,0,ending at 2^32}" : "{100}", mc_thorough() ? "{none,1,2,N,N+1}" : "{none,1,N}",
+             mc_thorough() ? " (<= 3 for sizes 1..4 at placement 100)" : "");
     mc_finish(true, bound);
     return 0;
 }
